@@ -231,7 +231,11 @@ pub fn decode05(s: &mut Src) -> Case05 {
         }
         _ => {
             let mut sub = Src::new(&[]);
-            let profile = if s.chance(64) { ServerProfile::simple(crate::gen::gen_user_id(s), s.b32()) } else { let _ = &mut sub; crate::gen::gen_profile(s, false) };
+            let mut profile = if s.chance(64) { ServerProfile::simple(crate::gen::gen_user_id(s), s.b32()) } else { let _ = &mut sub; crate::gen::gen_profile(s, false) };
+            // identifiers no conforming server assigns, consistently used through the whole conversation
+            if s.chance(40) {
+                profile.user_id = s.pick(&[1003u16, 1002, 1001, 1004]);
+            }
             let message = s.below(6) as u16;
             let kind = gen_fault_kind(s);
             let kind2 = if s.chance(64) { Some(gen_fault_kind(s)) } else { None };
@@ -254,6 +258,31 @@ fn sweep05(part: usize, parts: usize) -> impl Iterator<Item = Case05> {
     }
     for t in 0..cc.bytes.len() {
         v.push(Case05::Negotiation { reply: NegReply::Response { flags: 0, selected: 1 }, fault: Some(FaultKind::Truncate(t as u16)), nla: true, auth: true });
+    }
+    // every negotiation structure type x small and boundary values of its 32-bit field (selected protocol / failure code ...)
+    for typ in 0..=8u8 {
+        for value in (0..=64u32).chain(B32V.iter().copied()) {
+            for flags in [0u8, 1, 0x1F] {
+                v.push(Case05::Negotiation { reply: NegReply::Other { typ, flags, length: 8, value }, fault: None, nla: value % 2 == 0, auth: true });
+            }
+        }
+    }
+    // consistent conversations with unusual identifier assignments (user id equal to the I/O channel or to the
+    // server's own id, I/O channel other than 1003 ...): every message is well formed, nothing is faulted
+    for user_id in [1001u16, 1002, 1003, 1004, 1005, 0x7FFF, 0x8000, 65535] {
+        for io_channel in [1003u16, 1004, 1001, 1002, 0, 65535] {
+            for server_user in [1002u16, 1003, 1004] {
+                let mut p = ServerProfile::simple(user_id, 0x000103EA);
+                p.io_channel = io_channel;
+                p.server_user = server_user;
+                for b in p.ccrsp.blocks.iter_mut() {
+                    if let refimpl::gcc::ScBlock::Net { io_channel: c, .. } = b {
+                        *c = io_channel;
+                    }
+                }
+                v.push(Case05::Conn { profile: p, fault: Fault { message: 0, kind: FaultKind::Xor(vec![]), kind2: None } });
+            }
+        }
     }
     // every selected protocol low byte, with and without an authentication protocol
     for sel in 0..256u32 {
@@ -429,6 +458,34 @@ pub struct Case06 {
     pub kind: PduKind,
     pub fault: Option<FaultKind>,
     pub fault2: Option<FaultKind>,
+    /// complete activation + deactivate-all cycles the session went through before (state accumulated over a long session)
+    #[serde(default)]
+    pub cycles: u16,
+    /// capability sets of the conforming demand-active that activated the session (0 = the captured Windows list)
+    #[serde(default)]
+    pub caps: u8,
+}
+
+/// legal variations of the demand-active's capability list: order, subsets, unknown sets only, none
+pub fn caps_variant(v: u8) -> Vec<(u16, Vec<u8>)> {
+    let all = wire::sample_server_caps();
+    let pick = |types: &[u16]| -> Vec<(u16, Vec<u8>)> { types.iter().filter_map(|t| all.iter().find(|(x, _)| x == t).cloned()).collect() };
+    match v % 10 {
+        0 => all,
+        1 => all.into_iter().rev().collect(),
+        2 => pick(&[2, 1, 3]),
+        3 => pick(&[3, 2]),
+        4 => Vec::new(),
+        5 => pick(&[9, 0x14, 0x1D, 0x1E]),
+        6 => pick(&[1]),
+        7 => pick(&[2]),
+        8 => {
+            let mut c = all;
+            c.rotate_left(1);
+            c
+        }
+        _ => vec![(0x00FF, vec![0; 8]), (0x1D, vec![1; 20])],
+    }
 }
 
 pub fn base_frame(kind: &PduKind, share: u32) -> Built {
@@ -499,7 +556,10 @@ pub fn run06(c: &Case06) -> Outcome {
     };
     // conforming prefix into the requested state
     let su = 1002u16;
-    let d = DemandActive { share_id: SHARE, source: b"RDP\0".to_vec(), caps: wire::sample_server_caps(), session_id: 0 };
+    let d = DemandActive { share_id: SHARE, source: b"RDP\0".to_vec(), caps: caps_variant(c.caps), session_id: 0 };
+    if c.caps % 10 != 0 {
+        out.label("other-capability-list");
+    }
     let prefix: Vec<Built> = vec![
         wire::send_data_indication(su, 1003, &wire::demand_active(&d, su)),
         wire::send_data_indication(su, 1003, &wire::synchronize(SHARE, su, 1004)),
@@ -509,6 +569,29 @@ pub fn run06(c: &Case06) -> Outcome {
     ];
     let state = (c.state % 6) as usize;
     h.borrow_mut().auto_feed = false;
+    if c.cycles > 0 {
+        out.label("long-session");
+        let dea = wire::send_data_indication(su, 1003, &wire::deactivate_all(SHARE, su));
+        for _ in 0..c.cycles {
+            for f in prefix.iter().chain(std::iter::once(&dea)) {
+                h.borrow_mut().push(&f.bytes);
+                let (r, _) = call(|| conn.client.read(|_| ()));
+                match r {
+                    Res::Ok(()) => {}
+                    Res::Panic(p) => {
+                        fail_panic(&mut out, "RdpClient::read(cycle)", &p);
+                        return out;
+                    }
+                    Res::Err(e) => {
+                        out.fail("panic:HARNESS-FAULT c06 cycles", format!("conforming reactivation cycle rejected: {}", e));
+                        return out;
+                    }
+                }
+                // the client's answers are not needed
+                h.borrow_mut().pending.clear();
+            }
+        }
+    }
     for f in prefix.iter().take(state) {
         h.borrow_mut().push(&f.bytes);
         let (r, _) = call(|| conn.client.read(|_| ()));
@@ -577,6 +660,8 @@ const KINDS: [PduKind; 11] = [PduKind::DemandActive, PduKind::DeactivateAll, Pdu
 
 pub fn decode06(s: &mut Src) -> Case06 {
     let state = s.below(6) as u8;
+    let long = s.chance(6);
+    let caps = if s.chance(80) { s.below(10) as u8 } else { 0 };
     let kind = match s.below(16) {
         0 => {
             let n = s.below(40);
@@ -609,7 +694,7 @@ pub fn decode06(s: &mut Src) -> Case06 {
     };
     let fault = if matches!(kind, PduKind::RawShare(_) | PduKind::RawFastPath(_) | PduKind::RawFrame(_) | PduKind::Batch(_)) && s.bool() { None } else { Some(gen_fault_kind(s)) };
     let fault2 = if fault.is_some() && s.chance(64) { Some(gen_fault_kind(s)) } else { None };
-    Case06 { state, kind, fault, fault2 }
+    Case06 { state, kind, fault, fault2, cycles: if long { 1 + s.below(300) as u16 } else { 0 }, caps }
 }
 
 fn sweep06(tier: Tier, part: usize, parts: usize) -> impl Iterator<Item = Case06> {
@@ -636,14 +721,14 @@ fn sweep06(tier: Tier, part: usize, parts: usize) -> impl Iterator<Item = Case06
         for st in states {
             for (fi, w) in scalars.iter().enumerate() {
                 for val in values_for(*w) {
-                    v.push(Case06 { state: st, kind: kind.clone(), fault: Some(FaultKind::SetField { field: fi as u16, value: val }), fault2: None });
+                    v.push(Case06 { state: st, kind: kind.clone(), fault: Some(FaultKind::SetField { field: fi as u16, value: val }), fault2: None, cycles: 0, caps: 0 });
                 }
             }
             for t in 0..b.bytes.len().min(400) {
-                v.push(Case06 { state: st, kind: kind.clone(), fault: Some(FaultKind::Truncate(t as u16)), fault2: None });
+                v.push(Case06 { state: st, kind: kind.clone(), fault: Some(FaultKind::Truncate(t as u16)), fault2: None, cycles: 0, caps: 0 });
             }
             for e in [vec![0u8], vec![0xFF; 5], vec![3, 0, 0, 4]] {
-                v.push(Case06 { state: st, kind: kind.clone(), fault: Some(FaultKind::Extend(e)), fault2: None });
+                v.push(Case06 { state: st, kind: kind.clone(), fault: Some(FaultKind::Extend(e)), fault2: None, cycles: 0, caps: 0 });
             }
         }
     }
@@ -664,7 +749,7 @@ fn short_strings06(part: usize, parts: usize) -> impl Iterator<Item = Case06> {
         let data: Vec<u8> = (0..len).map(|j| ((k >> (8 * j)) & 0xFF) as u8).collect();
         let state = if which & 1 == 0 { 5 } else { 0 };
         let kind = if which & 2 == 0 { PduKind::RawShare(data) } else { PduKind::RawFastPath(data) };
-        Case06 { state, kind, fault: None, fault2: None }
+        Case06 { state, kind, fault: None, fault2: None, cycles: 0, caps: 0 }
     })
 }
 
@@ -672,12 +757,36 @@ fn short_strings06(part: usize, parts: usize) -> impl Iterator<Item = Case06> {
 fn batches06() -> Vec<Case06> {
     let slow = &KINDS[..7];
     let mut v = Vec::new();
+    // hundreds of PDUs of one kind in one frame, and hundreds of cycles in one session (counters that wrap)
+    for st in [0u8, 5] {
+        for k in slow {
+            for n in [255usize, 256, 257, 300] {
+                // keep the frame below the TPKT limit
+                let per = share_pdu(k, SHARE).map(|b| b.bytes.len()).unwrap_or(1).max(1);
+                let n = n.min(60000 / per);
+                v.push(Case06 { state: st, kind: PduKind::Batch(vec![k.clone(); n]), fault: None, fault2: None, cycles: 0, caps: 0 });
+            }
+        }
+    }
+    // every PDU kind, unfaulted, in every state, after each legal variation of the activating capability list
+    for caps in 1..10u8 {
+        for st in 0..6u8 {
+            for k in KINDS.iter() {
+                v.push(Case06 { state: st, kind: k.clone(), fault: None, fault2: None, cycles: 0, caps });
+            }
+        }
+    }
+    for cycles in [255u16, 256, 257, 300] {
+        for k in [PduKind::DeactivateAll, PduKind::DemandActive, PduKind::FpBitmap] {
+            v.push(Case06 { state: 5, kind: k, fault: None, fault2: None, cycles, caps: 0 });
+        }
+    }
     for st in 0..6u8 {
         for a in slow {
             for b in slow {
-                v.push(Case06 { state: st, kind: PduKind::Batch(vec![a.clone(), b.clone()]), fault: None, fault2: None });
+                v.push(Case06 { state: st, kind: PduKind::Batch(vec![a.clone(), b.clone()]), fault: None, fault2: None, cycles: 0, caps: 0 });
                 for c in slow {
-                    v.push(Case06 { state: st, kind: PduKind::Batch(vec![a.clone(), b.clone(), c.clone()]), fault: None, fault2: None });
+                    v.push(Case06 { state: st, kind: PduKind::Batch(vec![a.clone(), b.clone(), c.clone()]), fault: None, fault2: None, cycles: 0, caps: 0 });
                 }
             }
         }
@@ -777,6 +886,7 @@ pub fn check06(rep: &Report) {
     rep.random("capability-sets", rep.tier.n(200_000, 4_000_000), 160, decode_cap, run_cap);
     rep.random("faults", rep.tier.n(100_000, 6_000_000), 120, decode06, run06);
     rep.require("faults", "batch", 3000);
+    rep.require("faults", "other-capability-list", 3000);
     for st in ["state0-demand", "state1-sync", "state2-coop", "state3-granted", "state4-fontmap", "state5-active"] {
         rep.require("faults", st, 5000);
     }
